@@ -24,6 +24,7 @@ import graphslam.graph as gmod  # noqa: E402
 from graphslam.graph import Graph  # noqa: E402
 from graphslam.vertex import Vertex  # noqa: E402
 from graphslam.edge.base_edge import BaseEdge  # noqa: E402
+from graphslam.edge.edge_odometry import EdgeOdometry  # noqa: E402
 from graphslam.pose.r2 import PoseR2  # noqa: E402
 from graphslam.pose.r3 import PoseR3  # noqa: E402
 from graphslam.pose.se2 import PoseSE2  # noqa: E402
@@ -117,15 +118,45 @@ def gen_graph(rng, flavour=None):
         edges.append((list(e[0]), [rng.randint(-3, 3) for _ in e[1]], e[2], e[3]))
     if rng.random() < 0.05:             # unknown id -> KeyError
         edges.append(([gen_id(rng, set(ids))], [1], [[1]], [[[1, 0]]]))
-    return {'kinds': kinds, 'ids': ids, 'fixed': fixed, 'edges': edges, 'ffp': rng.random() < 0.5,
+    case = {'kinds': kinds, 'ids': ids, 'fixed': fixed, 'edges': edges, 'ffp': rng.random() < 0.5,
             'dx_seed': rng.randrange(10 ** 9)}
+    if rng.random() < 0.45:
+        # SEQUENCE on one Graph object: 2-3 optimizer calls, a fixed vertex possibly RELEASED in between, and some REAL
+        # EdgeOdometry objects between R^n vertices (integer data: err = p2 - p1 - z, J = [-I, I]), placed anywhere in the edge list
+        case['steps'] = rng.choice([2, 2, 3])
+        case['release'] = rng.random() < 0.6
+        case['ffp2'] = rng.random() < 0.25
+        real = {}
+        pairs = [(a, b) for a in range(nv) for b in range(nv) if a != b and kinds[a] == kinds[b] and kinds[a] in ('R2', 'R3')
+                 and ids.count(ids[a]) == 1 and ids.count(ids[b]) == 1]
+        for _ in range(rng.randint(1, 3) if pairs else 0):
+            a, b = rng.choice(pairs)
+            m = DIMS[kinds[a]]
+            A = [[rng.randint(-2, 2) for _ in range(m)] for _ in range(m)]
+            om = [[sum(A[k][i] * A[k][j] for k in range(m)) + (1 if i == j else 0) for j in range(m)] for i in range(m)]
+            z = [rng.randint(-4, 4) for _ in range(m)]
+            eye = [[1 if i == j else 0 for j in range(m)] for i in range(m)]
+            neg = [[-x for x in r] for r in eye]
+            pos = rng.randint(0, len(edges))
+            real = {(k + 1 if k >= pos else k): v for k, v in real.items()}
+            edges.insert(pos, ([ids[a], ids[b]], [0] * m, om, [neg, eye]))    # err is filled in per step from the current poses
+            real[pos] = {'z': z, 'a': a, 'b': b}
+        case['real'] = {str(k): v for k, v in real.items()}
+    return case
 
 
 def run_impl(case):
-    """-> dict(status, chi2, N, grad, hess, slots, moved_ok, detail)"""
+    """-> list of (effective case of the step, dict(status, N, grad, hess, slots, moved_ok, detail, ...)), one per optimizer call"""
     rng = random.Random(case['dx_seed'])
     vs = [Vertex(i, make_pose(rng, k), fixed=f) for i, k, f in zip(case['ids'], case['kinds'], case['fixed'])]
-    es = [ScriptedEdge(list(vids), np.array(om, dtype=np.float64), err, jacs) for (vids, err, om, jacs) in case['edges']]
+    real = {int(k): v for k, v in case.get('real', {}).items()}
+    es = []
+    for j, (vids, err, om, jacs) in enumerate(case['edges']):
+        if j in real:
+            cls = PoseR2 if len(real[j]['z']) == 2 else PoseR3
+            es.append(EdgeOdometry(list(vids), np.array(om, dtype=np.float64), cls([float(x) for x in real[j]['z']])))
+        else:
+            es.append(ScriptedEdge(list(vids), np.array(om, dtype=np.float64), err, jacs))
     if rng.random() < 0.3:
         # the same edge objects were used before in ANOTHER graph over different Vertex objects carrying the same ids:
         # construction must re-bind every edge to the vertices of THIS graph
@@ -136,46 +167,70 @@ def run_impl(case):
     try:
         g = Graph(es, vs)
     except KeyError:
-        return {'status': 5}
+        return [(case, {'status': 5})]
     except AssertionError:
-        return {'status': 4}
+        return [(case, {'status': 4})]
     N = sum(DIMS[k] for k in case['kinds'])
-    dx = np.array([float(rng.randint(-2, 2)) for _ in range(N)])
-    rec = {}
+    out = []
+    for st in range(case.get('steps', 1)):
+        if st > 0 and case.get('release'):
+            held = [k for k, v in enumerate(vs) if v.fixed]
+            if held:
+                vs[rng.choice(held)].fixed = False      # a vertex held in the earlier pass is released
+        ffp = case['ffp'] if st == 0 else case.get('ffp2', False)
+        eff = []
+        for j, (vids, err, om, jacs) in enumerate(case['edges']):
+            if j in real:
+                pa, pb = np.array(vs[real[j]['a']].pose), np.array(vs[real[j]['b']].pose)
+                err = [int(x) for x in (pb - pa - np.array(real[j]['z'], dtype=np.float64))]
+            eff.append((vids, err, om, jacs))
+        ecase = dict(case, fixed=[bool(v.fixed) for v in vs], ffp=ffp, edges=eff)
+        dx = np.array([float(rng.randint(-2, 2)) for _ in range(N)])
+        rec = {}
 
-    def fake_spsolve(A, b):
-        rec['A'] = np.array(A.toarray(), dtype=np.float64)
-        rec['b'] = np.array(b, dtype=np.float64)
-        return dx.copy()
-    before = [v.pose.copy() for v in vs]
-    before_arr = [np.array(v.pose) for v in vs]
-    orig = gmod.spsolve
-    gmod.spsolve = fake_spsolve
-    try:
-        g.optimize(tol=0.0, max_iter=1, fix_first_pose=case['ffp'], verbose=False)
-    finally:
-        gmod.spsolve = orig
-    fixed_after = [bool(v.fixed) for v in vs]
-    # expected motion: pose [+] dx-slice for the non-fixed vertices, bitwise; fixed vertices untouched
-    off = 0
-    moved_ok = True
-    detail = ''
-    for k, v in enumerate(vs):
-        d = DIMS[case['kinds'][k]]
-        if fixed_after[k]:
-            exp = before_arr[k]
-        else:
-            exp = np.array(before[k] + dx[off:off + d])
-        if not (np.array(v.pose).tobytes() == exp.tobytes() or np.array_equal(np.array(v.pose), exp)):
-            moved_ok = False
-            detail = 'vertex position %d (fixed=%s): pose %s, expected %s' % (k, fixed_after[k], np.array(v.pose).tolist(), exp.tolist())
-        off += d
-    if 'A' not in rec:
-        return {'status': 9, 'detail': 'spsolve was not called'}
-    return {'status': 0, 'chi2': rec.get('chi2', None), 'N': N, 'grad': (-rec['b']).tolist(), 'hess': rec['A'].tolist(),
-            'fixed_after': fixed_after,
-            'slots': [[next((k for k, w in enumerate(vs) if w is v), -1) for v in e.vertices] for e in es], 'moved_ok': moved_ok, 'detail': detail,
-            'graph_chi2': float(g._chi2) if g._chi2 is not None else None}
+        def fake_spsolve(A, b):
+            rec['A'] = np.array(A.toarray(), dtype=np.float64)
+            rec['b'] = np.array(b, dtype=np.float64)
+            return dx.copy()
+        before = [v.pose.copy() for v in vs]
+        before_arr = [np.array(v.pose) for v in vs]
+        orig = gmod.spsolve
+        gmod.spsolve = fake_spsolve
+        try:
+            g.optimize(tol=0.0, max_iter=1, fix_first_pose=ffp, verbose=False)
+        finally:
+            gmod.spsolve = orig
+        fixed_after = [bool(v.fixed) for v in vs]
+        # expected motion: pose [+] dx-slice for the non-fixed vertices, bitwise; fixed vertices untouched
+        off = 0
+        moved_ok = True
+        detail = ''
+        for k, v in enumerate(vs):
+            d = DIMS[case['kinds'][k]]
+            if fixed_after[k]:
+                exp = before_arr[k]
+            else:
+                exp = np.array(before[k] + dx[off:off + d])
+            if not (np.array(v.pose).tobytes() == exp.tobytes() or np.array_equal(np.array(v.pose), exp)):
+                moved_ok = False
+                detail = 'vertex position %d (fixed=%s): pose %s, expected %s' % (k, fixed_after[k], np.array(v.pose).tolist(), exp.tolist())
+            off += d
+        # chi2 the graph reports after the call = chi2 of the state AFTER the update (real edges: error recomputed from the moved poses)
+        chi2_after = 0
+        for j, (vids, err, om, jacs) in enumerate(eff):
+            if j in real:
+                pa, pb = np.array(vs[real[j]['a']].pose), np.array(vs[real[j]['b']].pose)
+                err = [int(x) for x in (pb - pa - np.array(real[j]['z'], dtype=np.float64))]
+            chi2_after += sum(err[i] * om[i][k] * err[k] for i in range(len(err)) for k in range(len(err)))
+        if 'A' not in rec:
+            out.append((ecase, {'status': 9, 'detail': 'spsolve was not called (optimizer call %d)' % st}))
+            break
+        out.append((ecase, {'status': 0, 'chi2': rec.get('chi2', None), 'N': N, 'grad': (-rec['b']).tolist(), 'hess': rec['A'].tolist(),
+                            'fixed_after': fixed_after, 'step': st, 'chi2_after': chi2_after, 'has_real': bool(real),
+                            'slots': [[next((k for k, w in enumerate(vs) if w is v), -1) for v in e.vertices] for e in es],
+                            'moved_ok': moved_ok, 'detail': detail,
+                            'graph_chi2': float(g._chi2) if g._chi2 is not None else None}))
+    return out
 
 
 def zl(l):
@@ -196,10 +251,15 @@ def run(seed, n_cases, corpus=None):
     cases = [gen_graph(rng) for _ in range(n_cases)]
     if corpus:
         cases = list(corpus) + cases
-    impl = [run_impl(c) for c in cases]
+    pairs = [p for c in cases for p in run_impl(c)]      # one (effective case, observation) per optimizer call
+    n_seq = sum(1 for c in cases if c.get('steps', 1) > 1)
+    n_real = sum(1 for c in cases if c.get('real'))
+    cases = [p[0] for p in pairs]
+    impl = [p[1] for p in pairs]
     okm, logm = vlib.make(['lib/GraphZ.vo'])
     res = {'evaluations': 0, 'agree': 0, 'disagreements': [], 'coq_errors': [],
-           'stats': {'vertices': {}, 'edges': {}, 'fixed_patterns': {}, 'keyerror': 0, 'duplicate_ids': 0, 'mixed_dims': 0}}
+           'stats': {'vertices': {}, 'edges': {}, 'fixed_patterns': {}, 'keyerror': 0, 'duplicate_ids': 0, 'mixed_dims': 0,
+                     'sequences': n_seq, 'with_real_Rn_odometry_edges': n_real, 'later_calls': sum(1 for im in impl if im.get('step', 0) > 0)}}
     if not okm:
         res['coq_errors'].append({'file': 'make lib/GraphZ.vo', 'out': logm[-1500:]})
         return res
@@ -264,8 +324,10 @@ def run(seed, n_cases, corpus=None):
                     H = np.array(hess, dtype=float).reshape(N, N)
                     bad = np.argwhere(H != np.array(im['hess']))
                     why = 'Hessian differs at %s: model %s impl %s' % (bad[:3].tolist(), [H[tuple(b)] for b in bad[:3]], [im['hess'][b[0]][b[1]] for b in bad[:3]])
-                elif im['graph_chi2'] is not None and float(chi2) != im['graph_chi2']:
+                elif im['graph_chi2'] is not None and not im.get('has_real') and float(chi2) != im['graph_chi2']:
                     why = 'chi2: model %d impl %r' % (chi2, im['graph_chi2'])
+                elif im['graph_chi2'] is not None and float(im.get('chi2_after', im['graph_chi2'])) != im['graph_chi2']:
+                    why = 'chi2 after the call: expected %r impl %r' % (im.get('chi2_after'), im['graph_chi2'])
                 elif not im['moved_ok']:
                     why = 'update step: ' + im['detail']
             if why is None:
